@@ -56,6 +56,35 @@ def addrtab_programs(rng, tier):
                 # instruction at offset 16: rel8 form ends at 18 (+1 with the 67h prefix of jecxz in 64-bit mode)
                 end8 = 16 + 2 + (1 if (k == "jecxz" and arch == "x64") else 0)
                 progs.append(["init %s %x" % (arch, base), "zeros 16", "jmpabs %s d %x" % (k, (base + end8 + d) & c03.M64)] + c03.tail(base))
+    # absolute memory operands [A]: every menu instruction (with 0/1/2/4 trailing immediate bytes) x address type x
+    # base known at init / assigned at relocation x targets on both sides of the rel32 reach and of the int32/uint32 limits
+    for base in (0x10000, 0x7FFFF000, 1 << 32, (1 << 47) - 65536, 1 << 63):
+        for ib in (None, base):
+            near = [(base + 0x1000) & c03.M64, (base + 0x7FFFFF00) & c03.M64, (base - 0x7FFFFF00) & c03.M64, (base + 0x2000) & c03.M64]
+            far = [(base + 0x80000100) & c03.M64, (base - 0x80000100) & c03.M64, 0x1000, 0x7FFFFFF0, 0x80000000, 0xFFFFFFF0,
+                   0xFFFFFFFF80000000, 0x123456789A]
+            init = "init x64 %s" % ("-" if ib is None else "%x" % ib)
+            for at in "dar":
+                # every target within rel32 reach: the relocation succeeds and every operand is judged
+                body = ["zeros %d" % rng.randrange(0, 9)]
+                for k in c03.MK:
+                    for t in rng.sample(near, 2):
+                        body.append("memabs %s %s %x" % (k, at, t))
+                progs.append([init] + body + c03.tail(base))
+                # targets that may be out of reach / need the absolute form: one program each so that one failing relocation
+                # does not hide the others
+                for t in rng.sample(far, 3):
+                    progs.append([init, "memabs %s %s %x" % (rng.choice(c03.MK), at, t), "memabs addi8 %s %x" % (at, near[0])] + c03.tail(base))
+    # mov with the accumulator: moffs (movabs) form vs ModRM form, 64-bit-only / uint32-only / int32 addresses
+    for base in (0x10000, 1 << 32, 1 << 63):
+        for ib in (None, base):
+            init = "init x64 %s" % ("-" if ib is None else "%x" % ib)
+            for at in "dar":
+                for t in (0x123456789ABC, 0xFFFFFFFF, 0x100000000, 0x7FFFFFFF, 0xFFFFFFFF80000000, (base + 0x4000) & c03.M64, 1 << 63):
+                    progs.append([init, "memabs %s %s %x" % (rng.choice(("ldeax", "steax", "ldrax")), at, t), "memabs ldeax %s %x" % (at, t)] + c03.tail(base))
+    for base in (0x1000, 0x7FFFF000, 0xFFFF0000):
+        for at in "dar":
+            progs.append(["init x86 -"] + ["memabs %s %s %x" % (k, at, t) for k in c03.MK for t in (0x1000, 0x80000000, 0xFFFFFFF0)] + c03.tail(base))
     # 32-bit wrap-around, jcc / jecxz through relocations, AArch64 branches to absolute targets
     for base in (0x1000, 0x7FFFF000, 0x80000000, 0xFFFFF000):
         for ib in (None, base):
